@@ -98,7 +98,7 @@ def run_pure_mode(ctx, tier, mode, rule, comparison, key_prefix="", vo_deps=("Mo
                         "mismatches": ["model does not compile: " + (o + e)[-800:]]}
     summ = os.path.join(ctx.work, "%s_%s.json" % (mode, tier))
     cases = os.path.join(ctx.work, "%s_cases_%s.v" % (mode, tier))
-    rc, out, err = sh([tool, mode, "-tier", tier, "-seed", str(ctx.seed), "-summary", summ, "-out", cases], timeout=3000, cwd=ctx.work)
+    rc, out, err = sh([tool, mode, "-tier", tier, "-seed", str(ctx.seed), "-summary", summ, "-out", cases], timeout=420 if getattr(ctx, "search", False) else 3000, cwd=ctx.work)
     if rc != 0:
         raise RuntimeError("purefh %s failed rc=%s\n%s\n%s" % (mode, rc, out[-2000:], err[-2000:]))
     s = json.load(open(summ))
@@ -585,7 +585,7 @@ PROPS = {
         "every generated Vertex and Transaction (enc_vtx / enc_trx: map header, keys, str/bin/ext framing) BYTE-EXACT against msgpack.Marshal output, and dec_vtx / dec_trx of the real bytes give back the "
         "generated value (coqc vm_compute; bodies above 20 kB: a dozen per run); struct layout regenerated from the Go struct tags (Gen/CodecFields.v) and compared in C19_msgpack_layout_is_the_source_layout",
         ["the msgpack DECODER library (shamaton) is tied to the model only through the round-trip monitor on the real code (the model decoder is proved against the model encoder, the model encoder is byte-exact against the real encoder)",
-         "protobuf encoding itself (varints, length-delimited fields) is trusted library code; the model covers the mapping functions and the timestamp arithmetic"],
+         "the protobuf runtime is library code: its wire behaviour for these messages is modelled (Model/ProtoWire.v) and compared byte for byte on every run, groups (wire types 3/4) excepted"],
         ("Model/Codec.vo", "Run/CheckCodec.vo")),
     "C17": make_pure_check("C17", "cache",
         "seeded sequential sequences of SaveAwaitedTransaction / RemoveAwaitedTransaction (by the receiver, by others, unknown hashes, repeats, issuer = receiver) on the real cache over 4 "
